@@ -34,8 +34,13 @@ func advIface(k int) (IfaceSpec, IfaceW) {
 // oneAdvertiser is a plan skeleton with a single advertising interface.
 func oneAdvertiser(rng *verifsim.RNG) *Plan {
 	is, iw := advIface(0)
+	var cs uint64
+	if rng.Bool(0.7) {
+		cs = rng.U64()>>1 | 1
+	}
 	return &Plan{
 		Offset: rng.Int63n(int64(time.Hour)),
+		Cancel: cs,
 		Nodes: []NodeSpec{{
 			Config: ConfigSpec{Interfaces: []IfaceSpec{is}},
 			Ifaces: []IfaceW{iw},
